@@ -258,6 +258,12 @@ _PATCH_NOTES = {
     "RVA": "repaired seed: TxnExt blanket extension trait with client() / finish()", "RVB": "repaired seed: Submission / Attempt extracted from the add-version handler",
     "RVF": "repaired seed: Lookup enum as the value of the add_snapshot search loop", "RVG": "repaired seed: SnapshotRequest newtype + MIN_REQUESTED_URGENCY const",
     "RVH": "repaired seed: ProtocolHeader trait, const value table, extension trait on HttpResponseBuilder",
+    "MA1": "round 14: get_client(txn) helper for the four operations", "MA2": "round 14: snapshot_is_acceptable() -> Result<bool> split out of add_snapshot", "MA3": "round 14: one match for the add_version urgency", "MA4": "round 14: guard clauses in get_snapshot / get_child_version",
+    "MB1": "round 14: bail! / imported anyhow macros", "MB2": "round 14: and_then chain in get_version_by_parent", "MB3": "round 14: client() / client_mut() helpers returning Result", "MB4": "round 14: let-else guard + Version built later in add_version",
+    "MC1": "round 14: named row-mapping functions", "MC2": "round 14: const SCHEMA: [&str; 3]", "MC3": "round 14: direct returns / three-arm match in get_snapshot_data", "MC4": "round 14: single-expression StoredUuid conversions, uniform params![]",
+    "MD1": "round 14: shared async read_body helper", "MD2": "round 14: TryStreamExt::try_next", "MD3": "round 14: MAX_*_SIZE constants moved to api/mod.rs", "MD4": "round 14: Vec::from(body) once, match tail",
+    "ME1": "round 14: client_id_header flattened to combinators (is_some_and)", "ME2": "round 14: parse_client_id_header + check_client_id_allowed helpers", "ME3": "round 14: map_err first, then match in the GET handlers", "ME4": "round 14: failure_to_ise renamed and reused",
+    "MF1": "round 14: ServerArgs::server_config + destructuring in main", "MF2": "round 14: try_fold over listen addresses", "MF3": "round 14: CACHE_CONTROL const + default_headers()", "MF4": "round 14: remove_one / remove_many in ServerArgs::new",
     "QA1": "round 11: from_thresholds generic helper", "QA2": "round 11: one match over client.snapshot", "QA3": "round 11: snapshot_version_is_recent() -> Result<bool>", "QA4": "round 11: accepts_parent_version predicate",
     "QB1": "round 11: derive Default for Inner", "QB2": "round 11: and_then chain in get_version_by_parent", "QB3": "round 11: client()/client_mut() helpers", "QB4": "round 11: let-else + bail! guard clauses",
     "QC1": "round 11: SCHEMA_QUERIES const slice", "QC2": "round 11: get_version_impl without client_id parameter", "QC3": "round 11: explicit match in get_snapshot_data", "QC4": "round 11: client_from_row named mapper",
